@@ -138,10 +138,7 @@ def _behave_chunk(task):
     if trace:
         _SPANS = spans
         mon = sys.monitoring
-        try:
-            mon.use_tool_id(TOOL, "verif-neighbour")
-        except ValueError:
-            pass
+        vlib.claim_tool(TOOL, "verif-neighbour")
         mon.register_callback(TOOL, mon.events.LINE, _line_event)
         mon.set_events(TOOL, mon.events.LINE)
     fps = [[] for _ in chunk]
